@@ -10,11 +10,13 @@ import (
 	"errors"
 	"fmt"
 	"io"
+	"net"
 	"net/http"
 	"net/url"
 	"os"
 	"sort"
 	"strings"
+	"syscall"
 	"time"
 	"unsafe"
 
@@ -80,6 +82,7 @@ type world struct {
 	backend     map[string]*backendPlan
 	uploadFault map[string]string // id -> "503x3" | "err"
 
+	listEnds    []time.Duration
 	listTimes   []time.Duration
 	listStarted int
 	fetchCount  map[string]int
@@ -158,6 +161,12 @@ func (p proxyRT) RoundTrip(r *http.Request) (*http.Response, error) {
 	return resp(404, nil, nil, r), nil
 }
 
+type timeoutErr struct{}
+
+func (timeoutErr) Error() string   { return "i/o timeout" }
+func (timeoutErr) Timeout() bool   { return true }
+func (timeoutErr) Temporary() bool { return true }
+
 func (w *world) list(r *http.Request) (*http.Response, error) {
 	w.touch()
 	w.listTimes = append(w.listTimes, w.s.Now())
@@ -178,6 +187,12 @@ func (w *world) list(r *http.Request) (*http.Response, error) {
 	if l.delay > 0 {
 		vtime.Sleep(l.delay)
 	}
+	defer func() {
+		for len(w.listEnds) <= i {
+			w.listEnds = append(w.listEnds, 0)
+		}
+		w.listEnds[i] = w.s.Now()
+	}()
 	if l.after != "" {
 		vs.Wait("proxy: long poll until "+l.after+" is answered", unsafe.Pointer(w), func() bool { return w.uploadFor(l.after) != nil })
 	}
@@ -195,6 +210,13 @@ func (w *world) list(r *http.Request) (*http.Response, error) {
 	switch l.kind {
 	case "err":
 		return nil, errors.New("scripted: connection refused")
+	case "timeout":
+		// what http.Client.Timeout / a dial timeout produce: an error whose Timeout() is true
+		return nil, &net.OpError{Op: "read", Net: "tcp", Err: timeoutErr{}}
+	case "refused":
+		return nil, &net.OpError{Op: "dial", Net: "tcp", Err: syscall.ECONNREFUSED}
+	case "eof":
+		return nil, io.ErrUnexpectedEOF
 	case "500":
 		return resp(500, nil, []byte("boom"), r), nil
 	case "503empty":
